@@ -76,6 +76,7 @@ Section Main.
   Lemma do_allOf_dev : forall o st, st_dev (do_allOf o st) = [] -> st_dev st = [].
   Proof.
     intros [l|] st H; unfold do_allOf in H; auto. destruct (allOf_loop l (st_A st)) as [rs A'].
+    rewrite dev_dev_if in H. apply app_eq_nil in H. destruct H as [H _].
     apply dev_step_allOf in H. tauto.
   Qed.
   Lemma do_allOf_inv : forall ol o st VS, OLGood ol o -> Inv T st VS -> st_dev (do_allOf o st) = [] ->
@@ -83,42 +84,56 @@ Section Main.
   Proof.
     intros [l|] [fl|] st VS G H D; unfold do_allOf, OGood, OLGood in *; try contradiction; cbn [optb optP].
     - destruct (allOf_loop fl (st_A st)) as [rs A'] eqn:E.
+      rewrite dev_dev_if in D. apply app_eq_nil in D. destruct D as [D _].
       destruct (dev_step_allOf _ _ _ _ D) as (_ & D2 & D3 & D4).
       pose proof (allOf_loop_run _ _ G _ _ _ E D2) as R.
+      eapply inv_sem_eq; [apply sem_eq_dev_if|].
       rewrite (lgood_len _ _ G) in *. apply inv_step_allOf; auto.
     - eapply inv_ext; [|exact H]. intros; tauto.
   Qed.
 
   Lemma do_anyOf_dev : forall o st, st_dev (do_anyOf o st) = [] -> st_dev st = [].
-  Proof. intros [l|] st H; unfold do_anyOf in H; auto. apply dev_step_anyOf in H. tauto. Qed.
+  Proof.
+    intros [l|] st H; unfold do_anyOf in H; auto. rewrite dev_dev_if in H. apply app_eq_nil in H. destruct H as [H _].
+    apply dev_step_anyOf in H. tauto.
+  Qed.
   Lemma do_anyOf_inv : forall ol o st VS, OLGood ol o -> Inv T st VS -> st_dev (do_anyOf o st) = [] ->
     Inv T (do_anyOf o st) (fun v => VS v /\ optb (fun l => existsb (fun s' => valid re s' v) l) ol = true).
   Proof.
     intros [l|] [fl|] st VS G H D; unfold do_anyOf, OGood, OLGood in *; try contradiction; cbn [optb optP].
-    - destruct (dev_step_anyOf _ _ _ D) as (_ & D2).
+    - rewrite dev_dev_if in D. apply app_eq_nil in D. destruct D as [D _].
+      destruct (dev_step_anyOf _ _ _ D) as (_ & D2).
+      eapply inv_sem_eq; [apply sem_eq_dev_if|].
       rewrite (lgood_len _ _ G). apply inv_step_anyOf; auto. apply par_good; auto.
     - eapply inv_ext; [|exact H]. intros; tauto.
   Qed.
 
   Lemma do_oneOf_dev : forall o st, st_dev (do_oneOf o st) = [] -> st_dev st = [].
-  Proof. intros [l|] st H; unfold do_oneOf in H; auto. apply dev_step_oneOf in H. tauto. Qed.
+  Proof.
+    intros [l|] st H; unfold do_oneOf in H; auto. rewrite dev_dev_if in H. apply app_eq_nil in H. destruct H as [H _].
+    apply dev_step_oneOf in H. tauto.
+  Qed.
   Lemma do_oneOf_inv : forall ol o st VS, OLGood ol o -> Inv T st VS -> st_dev (do_oneOf o st) = [] ->
     Inv T (do_oneOf o st)
         (fun v => VS v /\ optb (fun l => Nat.eqb (count (fun s' => valid re s' v) l) 1) ol = true).
   Proof.
     intros [l|] [fl|] st VS G H D; unfold do_oneOf, OGood, OLGood in *; try contradiction; cbn [optb optP].
-    - destruct (dev_step_oneOf _ _ _ D) as (_ & D2 & D3).
+    - rewrite dev_dev_if in D. apply app_eq_nil in D. destruct D as [D _].
+      destruct (dev_step_oneOf _ _ _ D) as (_ & D2 & D3).
+      eapply inv_sem_eq; [apply sem_eq_dev_if|].
       rewrite (lgood_len _ _ G). apply inv_step_oneOf; auto. apply par_good; auto.
     - eapply inv_ext; [|exact H]. intros; tauto.
   Qed.
 
   Lemma do_not_dev : forall o st, st_dev (do_not o st) = [] -> st_dev st = [].
-  Proof. intros [f|] st H; unfold do_not in H; auto. rewrite dev_step_not in H. dnil H. exact H. Qed.
+  Proof. intros [f|] st H; unfold do_not in H; auto. rewrite dev_dev_if, dev_step_not in H. dnil H. exact H. Qed.
   Lemma do_not_inv : forall os o st VS, OGood re os o -> Inv T st VS -> st_dev (do_not o st) = [] ->
     Inv T (do_not o st) (fun v => VS v /\ optb (fun s' => negb (valid re s' v)) os = true).
   Proof.
     intros [s|] [f|] st VS G H D; unfold do_not, OGood, OLGood in *; try contradiction; cbn [optb optP].
-    - rewrite dev_step_not in D. apply app_eq_nil in D. apply inv_step_not; auto. apply G. tauto.
+    - rewrite dev_dev_if in D. apply app_eq_nil in D. destruct D as [D _].
+      rewrite dev_step_not in D. apply app_eq_nil in D.
+      eapply inv_sem_eq; [apply sem_eq_dev_if|]. apply inv_step_not; auto. apply G. tauto.
     - eapply inv_ext; [|exact H]. intros; tauto.
   Qed.
 
@@ -411,13 +426,16 @@ Section Thm.
   Lemma shape_do_ref : forall o st, shape (do_ref o st) = shape st.
   Proof. intros [f|] st; unfold do_ref; auto. apply shape_step_ref. Qed.
   Lemma shape_do_allOf : forall o st, shape (do_allOf o st) = shape st.
-  Proof. intros [l|] st; unfold do_allOf; auto. destruct (allOf_loop l (st_A st)). apply shape_step_allOf. Qed.
+  Proof.
+    intros [l|] st; unfold do_allOf; auto. destruct (allOf_loop l (st_A st)).
+    rewrite <- (shape_sem_eq _ _ (sem_eq_dev_if _ _ _)). apply shape_step_allOf.
+  Qed.
   Lemma shape_do_anyOf : forall o st, shape (do_anyOf o st) = shape st.
-  Proof. intros [l|] st; unfold do_anyOf; auto. apply shape_step_anyOf. Qed.
+  Proof. intros [l|] st; unfold do_anyOf; auto. rewrite <- (shape_sem_eq _ _ (sem_eq_dev_if _ _ _)). apply shape_step_anyOf. Qed.
   Lemma shape_do_oneOf : forall o st, shape (do_oneOf o st) = shape st.
-  Proof. intros [l|] st; unfold do_oneOf; auto. apply shape_step_oneOf. Qed.
+  Proof. intros [l|] st; unfold do_oneOf; auto. rewrite <- (shape_sem_eq _ _ (sem_eq_dev_if _ _ _)). apply shape_step_oneOf. Qed.
   Lemma shape_do_not : forall o st, shape (do_not o st) = shape st.
-  Proof. intros [f|] st; unfold do_not; auto. apply shape_step_not. Qed.
+  Proof. intros [f|] st; unfold do_not; auto. rewrite <- (shape_sem_eq _ _ (sem_eq_dev_if _ _ _)). apply shape_step_not. Qed.
   Lemma shape_do_pnames : forall o st, shape (do_pnames o st) = shape st.
   Proof. intros [f|] st; unfold do_pnames; auto. apply shape_step_pnames. Qed.
   Lemma shape_do_contains : forall a o st, shape (do_contains a o st) = shape st.
